@@ -320,6 +320,7 @@ func Link(
 	}
 
 	c.treeShakingAndCodeSplitting()
+	verifObserveTreeShaking(&c)
 
 	if c.options.Mode == config.ModePassThrough {
 		for _, entryPoint := range c.graph.EntryPoints() {
